@@ -4,3 +4,8 @@ cd "$(dirname "$(readlink -f "$0")")"
 mkdir -p bin
 cargo build -q -p detgen --target-dir target/detgen 2>&1
 cp target/detgen/debug/detgen bin/detgen
+# the real command-line generator (for the cli-* families: generate in one process,
+# `--check` in others) and the getrandom seam preloaded into it
+cargo build -q --locked --manifest-path /repo/Cargo.toml --bin wit-bindgen --target-dir target/cli 2>&1
+cp target/cli/debug/wit-bindgen bin/wit-bindgen-cli
+clang -shared -fPIC -O1 -o bin/getrandom_shim.so detgen/getrandom_shim.c
